@@ -931,7 +931,12 @@ func (s *ipamSys) emitRt(by string) {
 		}
 		l = append(l, vt.M{"u": ipamUIDNum(u), "p": ipamPodNum(rt.Status.Pods[u].PodID), "ini": ini, "del": del})
 	}
-	s.w.Emit(vt.M{"ev": "rt", "by": by, "pods": l})
+	local := []int{} // the pod UIDs the daemon has a sandbox record for at this moment
+	for _, u := range s.svc.LocalUIDs() {
+		local = append(local, ipamUIDNum(u))
+	}
+	sort.Ints(local)
+	s.w.Emit(vt.M{"ev": "rt", "by": by, "pods": l, "local": local})
 }
 
 // age moves every "initial" timestamp two minutes into the past: time passes (data-driven clock).
